@@ -87,13 +87,16 @@ def WireList.elems {R : Type} : WireList R → List R
 /-- `buildResourceTrafficShapingController` (flow, hotspot): a new rule that the module judges *equal* to a rule
     already in force (`isEqualsTo` / `Equals`: the ID is not compared, irrelevant fields are not compared, flow
     thresholds are compared up to 1e-8) keeps the **old** controller and with it the old rule object; otherwise a
-    controller is built for the (normalised) new rule.  `equiv old new`. -/
-def reuseBuild {R : Type} (equiv : R → R → Bool) (norm : R → R) : List R → List R → List R
+    controller is built for the (normalised) new rule.  `equiv old new`, `reusable old new`. -/
+def reuseBuild {R : Type} (equiv reusable : R → R → Bool) (norm : R → R) : List R → List R → List R
   | _, [] => []
   | old, r :: rs =>
     match old.find? (fun o => equiv o r) with
-    | some o => o :: reuseBuild equiv norm (old.eraseP (fun o => equiv o r)) rs
-    | none => norm r :: reuseBuild equiv norm old rs
+    | some o => o :: reuseBuild equiv reusable norm (old.eraseP (fun o => equiv o r)) rs
+    | none =>
+      -- a new controller; it takes over the statistics of the first old controller whose rule is stat-reusable
+      -- (`isStatReusable`), which is thereby no longer a candidate for the rules that follow
+      norm r :: reuseBuild equiv reusable norm (old.eraseP (fun o => reusable o r)) rs
 
 /-- the valid rules of a delivered property -/
 def validElems {R : Type} (valid : R → Bool) : Option (WireList R) → List R
@@ -102,9 +105,9 @@ def validElems {R : Type} (valid : R → Bool) : Option (WireList R) → List R
 
 /-- rules in force after the updater ran on `d` with `old` in force: nil rules skipped (fix 9992752), invalid ones
     ignored; `data == nil` ⇒ ClearRules -/
-def enforcedOf {R : Type} (valid : R → Bool) (norm : R → R) (equiv : R → R → Bool) (old : List R)
+def enforcedOf {R : Type} (valid : R → Bool) (norm : R → R) (equiv reusable : R → R → Bool) (old : List R)
     (d : Option (WireList R)) : List R :=
-  reuseBuild equiv norm old (validElems valid d)
+  reuseBuild equiv reusable norm old (validElems valid d)
 
 structure Mgr (R : Type) where
   enforced : List R := []
@@ -115,10 +118,11 @@ structure Module (R : Type) where
   valid : R → Bool
   norm : R → R := id
   equiv : R → R → Bool := fun _ _ => false
+  reusable : R → R → Bool := fun _ _ => false
 
 /-- `FlowRulesUpdater` & co. -/
 def loadUpd {R : Type} (mo : Module R) (d : Option (WireList R)) (m : Mgr R) : Upd (Mgr R) :=
-  .ok { enforced := enforcedOf mo.valid mo.norm mo.equiv m.enforced d }
+  .ok { enforced := enforcedOf mo.valid mo.norm mo.equiv mo.reusable m.enforced d }
 
 /-- one delivery on a module -/
 def deliver {B R : Type} (conv : B → Conv (WireList R)) (eqv : Option (WireList R) → Option (WireList R) → Bool)
